@@ -2,7 +2,7 @@
 # usage: tools/run_overlay.sh <patch.diff> <property-id> [tier] [extra amc flags]
 # Like run_mutant.sh but WITHOUT touching /repo: the patched files are materialised in a scratch directory and handed
 # to `go build -overlay` (VERIF_OVERLAY). Safe to use while other checks run against /repo.
-P="$1"; ID="$2"; TIER="${3:-quick}"; shift; shift; shift
+P="$(readlink -f "$1")"; ID="$2"; TIER="${3:-quick}"; shift; shift; shift
 NAME=$(basename $(dirname "$P"))-$(basename "$P" .diff)
 D=/tmp/ovl/$NAME-$ID; rm -rf "$D"; mkdir -p "$D/src" "$D/out"
 FILES=$(grep '^+++ b/' "$P" | sed 's|^+++ b/||')
